@@ -45,6 +45,7 @@ import Mutagen.Driver.C44
 import Mutagen.Driver.C45
 import Mutagen.Driver.C46
 import Mutagen.Driver.C47
+import Mutagen.Driver.SESS
 
 /-! `modeld <property>`: reads one case per line on stdin, writes the model's
 canonical answer per line on stdout. Imports only `Mutagen.Driver.*` (and the
@@ -98,6 +99,7 @@ def dispatch : String → Option (String → String)
   | "C45" => some Mutagen.Driver.C45.handle
   | "C46" => some Mutagen.Driver.C46.handle
   | "C47" => some Mutagen.Driver.C47.handle
+  | "SESS" => some Mutagen.Driver.SESS.handle
   | _ => none
 
 def main (args : List String) : IO UInt32 := do
